@@ -15,7 +15,7 @@ pub const DEF: PropDef = PropDef {
     run,
     replay,
     level: "exploration",
-    rule: "bounded-exhaustive: for every pattern (38 base; thorough: plus a psk variant each) and both roles, ALL sequences of handshake-phase calls over {write with ample buffer, write with empty buffer, read genuine next message (from a shadow peer), read stale (previous) message, read 10 bytes of garbage} up to depth #messages+1 (thorough: +2); at EVERY node of that tree both conversions (stateful, stateless) and, when they succeed, all length-2 sequences over {transport write, transport read genuine, transport read garbage}; plus random longer sequences. Model: (position, role). Expected per call: success exactly when the model allows; otherwise State(NotTurnToWrite|NotTurnToRead) before completion, State(HandshakeAlreadyFinished|NotTurnTo..) after it, State(HandshakeNotFinished) for early conversion, State(OneWay) for the forbidden transport direction; after every call is_handshake_finished()==(position==#messages), is_initiator() constant, and while unfinished is_my_turn()==(initiator XOR position odd); a failed call leaves the indicators unchanged. Non-trivial = the sequence contains at least one out-of-phase call; distinct by (pattern, role, sequence)",
+    rule: "bounded-exhaustive: for every pattern (38 base; thorough: plus a psk variant each) and both roles, ALL sequences of handshake-phase calls over {write with ample buffer, write with empty buffer, read genuine next message (from a shadow peer), read stale (previous) message, read 10 bytes of garbage} up to depth #messages+1 (thorough: +2); at EVERY node of that tree both conversions (stateful, stateless) and, when they succeed, all length-2 sequences over {transport write, transport read genuine, transport read garbage}; plus random longer sequences. Ephemerals come from the resolver's random source, which yields OTHER bytes while a call the model expects to fail is running than during valid calls (an out-of-phase call that re-draws the live ephemeral then breaks the next genuine message). Model: (position, role). Expected per call: success exactly when the model allows; otherwise State(NotTurnToWrite|NotTurnToRead) before completion, State(HandshakeAlreadyFinished|NotTurnTo..) after it, State(HandshakeNotFinished) for early conversion, State(OneWay) for the forbidden transport direction; after every call is_handshake_finished()==(position==#messages), is_initiator() constant, and while unfinished is_my_turn()==(initiator XOR position odd); a failed call leaves the indicators unchanged. Non-trivial = the sequence contains at least one out-of-phase call; distinct by (pattern, role, sequence)",
     technique: "bounded-exhaustive model-based testing of call sequences (every node of the call tree to the depth bound) + proptest random sequences",
     assumptions: &["where an out-of-phase call also has a malformed argument (empty buffer), either the state error or the input error is accepted: the statement fixes no precedence"],
     panic_is_violation: false,
@@ -55,11 +55,18 @@ fn oracle(c: &Case, acc: &mut Acc) -> CaseResult {
     let suites = all_suites();
     // 25519 / ChaChaPoly / BLAKE2s for speed
     let suite = *suites.iter().find(|s| s.dh == crate::refcrypto::DhKind::X25519 && s.cipher == crate::refcrypto::CipherKind::ChaChaPoly && s.hash == crate::refcrypto::HashKind::Blake2s).unwrap();
-    let spec = SessionSpec::simple(hs, suite, 0xC11);
+    let mut spec = SessionSpec::simple(hs, suite, 0xC11);
+    // ephemerals come from the resolver's random source (the production path); while a call that
+    // the model expects to FAIL runs, that source yields other bytes than during the valid calls,
+    // so an out-of-phase call that re-draws the live ephemeral has a visible effect later
+    spec.eph = EphMode::Rng;
     let pat = spec.pattern();
     let nm = pat.msgs.len();
     let oneway = pat.is_oneway();
     let pair = build_pair(&spec, None)?;
+    let e_rng = if c.initiator { pair.rng_i.clone() } else { pair.rng_r.clone() };
+    let e_script = spec.e_priv(c.initiator);
+    let poison = priv_from_seed(spec.suite.dh, spec.key_seed, 7777);
     let (mut e, mut p) = if c.initiator { (pair.i, pair.r) } else { (pair.r, pair.i) };
     let role = if c.initiator { "initiator" } else { "responder" };
     let who = format!("{} {role} calls {:?} conv {:?} transport {:?}", spec.name_string(), c.hs_ops, c.conv, c.t_ops);
@@ -87,6 +94,8 @@ fn oracle(c: &Case, acc: &mut Acc) -> CaseResult {
         let finished = pos == nm;
         let mine = my_turn_model(pos);
         let mut failed = true;
+        let expected_ok = (*op == W_OK && mine) || (*op == R_GENUINE && !finished && !mine);
+        e_rng.script(if expected_ok { &e_script } else { &poison });
         match *op {
             W_OK | W_SMALL => {
                 let payload = spec.payload(pos, 4);
